@@ -39,7 +39,7 @@ def DataInv (d : List (ν × α)) : Prop :=
 
 /-- every stored coefficient block is the one built from the pure node values -/
 def CoeffInv (cs : List (κ × C)) : Prop :=
-  ∀ c co, lookup c cs = some co → co = S.build c ((S.stencil c).map (nodeVal S E))
+  ∀ c co, lookup c cs = some co → S.build c ((S.stencil c).map (nodeVal S E)) = some co
 
 def Inv (st : St α ν κ C) : Prop := DataInv S E st.data ∧ CoeffInv S E st.coeffs
 
@@ -130,14 +130,17 @@ theorem evalStep_spec (nbe : Bool) (st : St α ν κ C) (hst : Inv S E st) (p : 
       have hv : (S.stencil c).map (readNode E (sample S E (S.stencil c) st.data).1) =
           (S.stencil c).map (nodeVal S E) := List.map_congr_left i3
       simp only [hv]
-      refine ⟨⟨i1, ?_⟩, trivial⟩
-      intro c' co' h
-      by_cases hcc : c = c'
-      · subst hcc
-        simp only [lookup_cons_self] at h
-        cases h; rfl
-      · simp only [lookup_cons_ne hcc] at h
-        exact hst.2 c' co' h
+      cases hb : S.build c ((S.stencil c).map (nodeVal S E)) with
+      | none => exact ⟨⟨i1, hst.2⟩, rfl⟩
+      | some co =>
+        refine ⟨⟨i1, ?_⟩, rfl⟩
+        intro c' co' h
+        by_cases hcc : c = c'
+        · subst hcc
+          simp only [lookup_cons_self] at h
+          cases h; exact hb
+        · simp only [lookup_cons_ne hcc] at h
+          exact hst.2 c' co' h
 
 theorem run_inv (nbe : Bool) (ps : List P) : ∀ st : St α ν κ C, Inv S E st → Inv S E (run S E nbe st ps) := by
   induction ps with
